@@ -33,6 +33,12 @@ func (prog *Progress) init() {
 	if prog.Cfg == nil {
 		prog.Cfg = &Config{}
 	}
+	if prog.Cfg.Ctx == nil || prog.Cfg.LinkTargetNodePrototypeChooser == nil {
+		// Defaults are filled into a copy: the caller's Config may be shared by concurrent traversals
+		// and must only ever be read.
+		cfg := *prog.Cfg
+		prog.Cfg = &cfg
+	}
 	prog.Cfg.init()
 	if prog.Cfg.LinkVisitOnlyOnce {
 		prog.SeenLinks = make(map[datamodel.Link]struct{})
